@@ -165,7 +165,7 @@ func (u *Unit) cover(st *State, name, text string) {
 		u.obls[full] = o
 		u.order = append(u.order, full)
 	}
-	o.Insts = append(o.Insts, &OblInst{Hyp: st.hyp(), Goal: "false"})
+	o.Insts = append(o.Insts, &OblInst{Hyp: st.hyp(), HypList: append(append([]string{}, st.pc...), st.guard...), Goal: "false"})
 }
 
 func (u *Unit) coverWithPre(st, pre *State, name, text string) {
